@@ -56,8 +56,16 @@ def contracts():
 
 
 def interp_for(unit):
-    ip = make_interp(contracts=contracts())
+    c = contracts()
+    if unit.name.startswith("create_then_list"):
+        # the real create_schedule is executed: signer / weekday encoder through their contracts, the clock encoder from its body
+        for k, v in TOOLS.items():
+            if not k.endswith("time_to_hexadecimal_timestamp"):
+                c[k] = v
+    ip = make_interp(contracts=c)
     schedmodel.install(ip)
+    from .api_common import stream_env
+    stream_env(ip)
     return ip
 
 
@@ -172,23 +180,30 @@ def units(tier):
     u["dep_calc_duration"] = Unit("dep_calc_duration", PROP, dep_dur, functions=[ST + "calc_duration"], proves=ST + "calc_duration")
 
     # ---- created record read back: days_of(mask_of(D)) == D and HH:MM(localtime(mktime(today, h, m))) == h:m (L1)
-    def readback(ip, ctx):
+    def readback(ip, ctx, chunk=0, nchunks=1):
+        from .apiops import ops, run_op
         D = Days()
         members = list(D)
-        sets = [c for size in range(8) for c in itertools.combinations(members, size)]
-        combo = sets[ctx.fork(len(sets))]
-        start, end = TimeStr("start", ctx), TimeStr("end", ctx)
+        op = ops()["create_schedule"]
+        variants = list(range(128))[chunk::nchunks]
+        v = variants[ctx.fork(len(variants))]
+        run = run_op(ip, ctx, op, v, ("ge", 12), ("ge", 0))
+        info = run["info"]
+        start, end = info["start"], info["end"]
         ctx.assume(start.valid())
         ctx.assume(end.valid())
-        mask = 0
-        for d in combo:
-            mask += sp(ip, "day_bit", [d], ctx)
+        if run["outcome"][0] != "ret" or len(run["writes"]) != 2:
+            return [Obligation(f"{PROP}/create_then_list/v{v}/create_schedule_sends_the_record", ctx, False,
+                               note=str(run["outcome"][1]) if run["outcome"][0] == "exc" else f"{len(run['writes'])} frames")]
+        frame = run["writes"][1]
+        combo = tuple(sorted(info["days"].s, key=members.index)) if hasattr(info["days"], "s") else ()
+        # L1 (assumed): the two local times exist today, so localtime(mktime(today, h, m)) gives them back
         se = sp(ip, "today_epoch", [start.hv, start.mv], ctx)
         ee = sp(ip, "today_epoch", [end.hv, end.mv], ctx)
-        for t, x in ((se, start), (ee, end)):       # L1 (assumed): these local times exist today
+        for t, x in ((se, start), (ee, end)):
             ctx.assume(z3.And(models.LT_HOUR(t) == x.hv, models.LT_MIN(t) == x.mv))
-        frame = sp(ip, "create_schedule_frame", [b"\x00\x00\x00\x00", b"\x00\x00\x00\x00", b"\x00\x00\x00", mask, se, ee], ctx)
         slot = sym_bytes(ctx, "slot", 1, register=False)
+        # the device lists the record back: slot id, enabled, the mask byte, state, the start and end fields, 4 more bytes
         rec = ip.add(ip.add(ip.add(slot, b"\x01", ctx), ip.getslice(frame, 85, 86, ctx), ctx), b"\x01", ctx)
         rec = ip.add(ip.add(rec, ip.getslice(frame, 87, 95, ctx), ctx), b"\x00\x00\x00\x00", ctx)
         r = ip.add(ip.add(bytes(45), rec, ctx), bytes(4), ctx)
@@ -202,7 +217,10 @@ def units(tier):
             obs.append(Obligation(base + "/same_start", ctx, ip.equals(o.attrs["start_time"], sp(ip, "hhmm", [start.hv, start.mv], ctx), ctx)))
             obs.append(Obligation(base + "/same_end", ctx, ip.equals(o.attrs["end_time"], sp(ip, "hhmm", [end.hv, end.mv], ctx), ctx)))
         return obs
-    u["create_then_list"] = Unit("create_then_list", PROP, readback, functions=[SP + "get_schedules"])
+    for ch in range(8):
+        u[f"create_then_list_{ch}"] = Unit(f"create_then_list_{ch}", PROP, readback, params={"chunk": ch, "nchunks": 8},
+                                           functions=[SP + "get_schedules", "aioswitcher.api.SwitcherType1Api.create_schedule",
+                                                      ST + "time_to_hexadecimal_timestamp"])
 
     def canary(ip, ctx):
         r = sym_bytes(ctx, "r", 49 + 16)
@@ -224,10 +242,13 @@ def replay_case(o):
 
 
 def search_cases(o, seed):
+    if "create_then_list" in o["name"]:
+        return [{"prop": PROP, "kind": "create_readback", "inputs": {"seed": seed, "n": 300, "dst_days": True}}]
     return [{"prop": PROP, "kind": "sweep", "inputs": {"seed": seed, "n": 400}}]
 
 
 def native_cases(tier, seed):
     return [{"prop": PROP, "kind": "sweep", "inputs": {"seed": seed, "n": 400 if tier == "quick" else 20000}},
             {"prop": PROP, "kind": "create_readback", "inputs": {"seed": seed, "n": 200 if tier == "quick" else 5000}},
+            {"prop": PROP, "kind": "create_readback", "inputs": {"seed": seed, "n": 120 if tier == "quick" else 3000, "dst_days": True}},
             {"prop": PROP, "kind": "shipped", "inputs": {}}]
